@@ -97,8 +97,18 @@ def run(prog, check):
                  'the variable list is rebuilt on every solve' if ok else
                  'the variable list is neither cached-with-invalidation nor rebuilt on every solve', 're-parsing a solver')
     # ---- R2 ----------------------------------------------------------------------------------------
+    # statements that run only when the trace flag is set (branch-outcome facts on the flattened method) may write
+    # nothing but trace state and names that live only in such statements; a statement that is mirrored under the
+    # opposite outcome (the same work done on both sides of an early return) is not trace-specific
+    import re as _re
+    from ..cfg import atomic_facts
+    from ..inline import flatten
+
+    def _norm_txt(node_ast):
+        return _re.sub(r'__i\d+_*', '', unparse(node_ast))
     n_blocks = 0
-    for f in solver_cls.methods.values():
+    for f_raw in solver_cls.methods.values():
+        f = flatten(prog, f_raw)
         flags = set()
         for n in ast.walk(f.node):
             if isinstance(n, ast.Assign) and isinstance(n.targets[0], ast.Name) and any(
@@ -107,53 +117,102 @@ def run(prog, check):
         flags |= {p for p in f.params() if 'trace' in p.lower()}
         if not flags:
             continue
-        for n in ast.walk(f.node):
-            if isinstance(n, ast.If) and isinstance(n.test, ast.Name) and n.test.id in flags:
-                n_blocks += 1
-                check.saw(f)
-                block = n.body
-                bad = []
-                assigned_local = set()
-                for st in block:
-                    for x in ast.walk(st):
-                        if isinstance(x, (ast.Assign, ast.AugAssign)):
-                            ts = x.targets if isinstance(x, ast.Assign) else [x.target]
-                            for t in ts:
-                                assigned_local.update(target_names(t))
-                        if isinstance(x, ast.For):
-                            assigned_local.update(target_names(x.target))
-                    for kind, recv, mn in mutations_in(st):
-                        if kind == '+=' and isinstance(recv, ast.Name):
-                            continue
-                        base = recv
-                        while isinstance(base, (ast.Subscript, ast.Attribute)):
-                            base = base.value
-                        txt = unparse(recv if kind not in ('attr=', 'attr+=') else
-                                      (mn.targets[0] if isinstance(mn, ast.Assign) else mn.target))
-                        if isinstance(base, ast.Name) and base.id == 'self':
-                            if 'Trace' in txt:
-                                continue
-                            bad.append('%s on %s' % (kind, txt))
-                        elif isinstance(base, ast.Name) and base.id not in assigned_local:
-                            bad.append('%s on outer local %s' % (kind, txt))
-                    for x in ast.walk(st):
-                        if isinstance(x, (ast.Return, ast.Raise, ast.Break, ast.Continue)):
-                            bad.append('control transfer `%s`' % unparse(x)[:40])
-                # names assigned in the block and read outside it
-                inside_ids = set(id(x) for st in block for x in ast.walk(st))
-                leaks = set()
-                for x in ast.walk(f.node):
-                    if isinstance(x, ast.Name) and isinstance(x.ctx, ast.Load) and x.id in assigned_local and id(x) not in inside_ids:
-                        # only a leak when the name is not (re)assigned outside the block before use; conservative: any outer assignment clears it
-                        outer_assign = any(isinstance(y, ast.Name) and isinstance(y.ctx, ast.Store) and y.id == x.id
-                                           and id(y) not in inside_ids for y in ast.walk(f.node))
-                        if not outer_assign:
-                            leaks.add(x.id)
-                for lk in sorted(leaks):
-                    bad.append('block-local name `%s` is read outside the trace block' % lk)
-                check.ob('C17.R2', '%s::trace-block@%s' % (f.key, _block_key(n)), not bad, '%s:%d' % (f.module.rel, n.lineno),
-                         'writes only trace state and block-local names' if not bad else '; '.join(bad[:4]),
-                         'solving with TraceStep set to some period vs unset must give identical series')
+        g = cfgmod.build(f)
+        on, off = [], []
+        for nd in g.stmt_nodes():
+            if nd.kind not in ('stmt', 'for', 'with', 'test'):
+                continue
+            pol = None
+            for test, outcome in g.conditions_at(nd):
+                for _, v, e in atomic_facts(test, outcome):
+                    if isinstance(e, ast.Name) and e.id in flags:
+                        pol = v
+                    elif isinstance(e, ast.Compare) and any(isinstance(x, ast.Attribute) and x.attr == 'TraceStep' for x in ast.walk(e)) \
+                            and len(e.ops) == 1 and isinstance(e.ops[0], ast.Eq):
+                        pol = v
+            if pol is True:
+                on.append(nd)
+            elif pol is False:
+                off.append(nd)
+        if not on:
+            continue
+        n_blocks += 1
+        check.saw(f_raw)
+        off_txt = {_norm_txt(nd.ast if nd.kind != 'for' else nd.ast.iter) for nd in off if nd.ast is not None}
+        on_ids = set()
+        for nd in on:
+            if nd.kind == 'stmt':
+                on_ids.update(id(x) for x in ast.walk(nd.ast))
+            elif nd.kind == 'for':
+                on_ids.update(id(x) for x in ast.walk(nd.ast.target))
+                on_ids.update(id(x) for x in ast.walk(nd.ast.iter))
+            elif nd.kind == 'test':
+                on_ids.update(id(x) for x in ast.walk(nd.ast))
+        assigned_on = set()
+        for nd in on:
+            if nd.kind == 'stmt' and isinstance(nd.ast, (ast.Assign, ast.AugAssign)):
+                ts = nd.ast.targets if isinstance(nd.ast, ast.Assign) else [nd.ast.target]
+                for t in ts:
+                    assigned_on.update(target_names(t))
+            elif nd.kind == 'for':
+                assigned_on.update(target_names(nd.ast.target))
+        assigned_elsewhere = {y.id for y in ast.walk(f.node) if isinstance(y, ast.Name) and isinstance(y.ctx, ast.Store) and id(y) not in on_ids}
+        assigned_elsewhere |= set(f.params())
+        trace_local = assigned_on - assigned_elsewhere
+        # names bound to trace state by a plain copy inside the trace-only statements
+        trace_alias = set()
+        for nd in on:
+            if nd.kind == 'stmt' and isinstance(nd.ast, ast.Assign) and len(nd.ast.targets) == 1 and isinstance(nd.ast.targets[0], ast.Name) \
+                    and 'Trace' in unparse(nd.ast.value) and unparse(nd.ast.value).startswith('self.') and nd.ast.targets[0].id in trace_local:
+                trace_alias.add(nd.ast.targets[0].id)
+        bad = []
+        for nd in on:
+            if nd.kind != 'stmt':
+                continue
+            if _norm_txt(nd.ast) in off_txt:
+                continue
+            for kind, recv, mn in mutations_in(nd.ast):
+                if kind == '+=' and isinstance(recv, ast.Name):
+                    if recv.id not in trace_local:
+                        bad.append('+= on outer local %s' % recv.id)
+                    continue
+                base = recv
+                while isinstance(base, (ast.Subscript, ast.Attribute)):
+                    base = base.value
+                txt = unparse(recv if kind not in ('attr=', 'attr+=') else
+                              (mn.targets[0] if isinstance(mn, ast.Assign) else mn.target))
+                if isinstance(base, ast.Name) and base.id == 'self':
+                    if 'Trace' in txt:
+                        continue
+                    bad.append('%s on %s' % (kind, txt))
+                elif isinstance(base, ast.Name) and base.id in trace_alias:
+                    continue
+                elif isinstance(base, ast.Name) and base.id not in trace_local:
+                    bad.append('%s on outer local %s' % (kind, txt))
+            if isinstance(nd.ast, ast.Assign):
+                for t in nd.ast.targets:
+                    for nm in target_names(t):
+                        if nm not in trace_local:
+                            bad.append('assignment to outer local %s' % nm)
+            if isinstance(nd.ast, (ast.Return, ast.Raise, ast.Break, ast.Continue)):
+                bad.append('control transfer `%s`' % unparse(nd.ast)[:40])
+            # calls on self other than trace helpers and the mirrored work
+            for c in ast.walk(nd.ast):
+                if isinstance(c, ast.Call) and isinstance(c.func, ast.Attribute) and isinstance(c.func.value, ast.Name) and \
+                        c.func.value.id == 'self' and 'Trace' not in c.func.attr:
+                    callee = prog.resolve_method(solver_cls, c.func.attr)
+                    if callee is not None:
+                        from .C15 import self_writes
+                        ws = {w for w in self_writes(prog, callee, 3) if 'Trace' not in w}
+                        if ws:
+                            bad.append('call self.%s writes %s' % (c.func.attr, sorted(ws)[:3]))
+        for x in ast.walk(f.node):
+            if isinstance(x, ast.Name) and isinstance(x.ctx, ast.Load) and x.id in trace_local and id(x) not in on_ids:
+                bad.append('trace-only name `%s` is read outside the trace-only statements' % x.id)
+        bad = sorted(set(bad))
+        check.ob('C17.R2', '%s::trace-only-statements(%s)' % (f.key, ','.join(sorted(flags))), not bad, f.where,
+                 '%d trace-only statement(s) write only trace state and trace-only names' % len(on) if not bad else '; '.join(bad[:4]),
+                 'solving with TraceStep set to some period vs unset must give identical series')
     # ---- R3 ----------------------------------------------------------------------------------------
     nlog = 0
     for f in prog.all_functions():
